@@ -2,7 +2,9 @@
 From FS Require Export Model.Adapter Model.Ledger.
 
 Inductive case :=
-  | CaseHTTP (id : Z) (script : list attempt_result) (client_level : bool) (attempts : Z) (instants : list Z)
+  | CaseHTTP (id : Z) (script : list attempt_result) (client_level : bool)
+             (rcfg : Z * Z)   (* delay configured besides the Retry-After delay function: (base, backoff maximum) in ns, (0, 0) = none *)
+             (attempts : Z) (instants : list Z)
              (status errcode : Z) (bodies_ok same_request values_seen deadline_seen body_readable both_ctx : bool)
              (opened closed : Z) (leak : bool)
   | CaseBody (id : Z) (kind : body_kind) (size : Z) (offset : nat) (is_error no_body each_complete : bool)
@@ -16,7 +18,7 @@ Inductive case :=
   | CaseSites (id : Z) (sites : list site).
 
 Definition case_id (c : case) : Z :=
-  match c with CaseHTTP id _ _ _ _ _ _ _ _ _ _ _ _ _ _ _ | CaseBody id _ _ _ _ _ _ | CaseGRPC id _ _ _ _ _ _ _ | CaseOverlap id _ _ _ _ _ _ | CaseCore id _ _ | CaseSites id _ => id end.
+  match c with CaseHTTP id _ _ _ _ _ _ _ _ _ _ _ _ _ _ _ _ | CaseBody id _ _ _ _ _ _ | CaseGRPC id _ _ _ _ _ _ _ | CaseOverlap id _ _ _ _ _ _ | CaseCore id _ _ | CaseSites id _ => id end.
 
 (* the harness repeats the last scripted behaviour when the script is shorter than the number of attempts *)
 Definition pad (script : list attempt_result) : list attempt_result :=
@@ -35,8 +37,8 @@ Fixpoint zl_eqb (a b : list Z) : bool :=
   match a, b with [], [] => true | x :: a', y :: b' => (x =? y) && zl_eqb a' b' | _, _ => false end.
 
 (* default policy: 2 retries *)
-Definition http_expect (script : list attempt_result) : Z * Z * Z * list Z :=
-  let '(r, k, ds) := http_retry (pad script) 2 0 in
+Definition http_expect (rcfg : Z * Z) (script : list attempt_result) : Z * Z * Z * list Z :=
+  let '(r, k, ds) := http_retry_b (fst rcfg) (snd rcfg) 0 (pad script) 2 0 in
   match r with
   | Some i => match nth i (pad script) (AErr HPlainOther) with
               | AResp rs => (Z.of_nat k, rs_status rs, 0, ds)
@@ -60,8 +62,8 @@ Fixpoint grpc_calls (codes : list Z) (retries_left : nat) (n : Z) : Z * Z :=
 
 Definition agrees (c : case) : bool :=
   match c with
-  | CaseHTTP _ script _ attempts instants status errcode bodies same vals dl readable both _ _ leak =>
-      let '(k, st, ec, ds) := http_expect script in
+  | CaseHTTP _ script _ rcfg attempts instants status errcode bodies same vals dl readable both _ _ leak =>
+      let '(k, st, ec, ds) := http_expect rcfg script in
       (attempts =? k) && (status =? st) && (errcode =? ec) && zl_eqb (diffs instants) ds
       && bodies && same && vals && dl && Bool.eqb readable (negb both || (status =? 0)) && negb leak
   | CaseBody _ kind size off is_err no_body ok =>
@@ -84,10 +86,11 @@ Definition agrees (c : case) : bool :=
 (* C18 on the implementation's observations alone *)
 Definition checker18 (c : case) : bool :=
   match c with
-  | CaseHTTP _ script _ attempts instants status errcode bodies same vals dl readable _ _ _ _ =>
-      let '(k, st, ec, ds) := http_expect script in
+  | CaseHTTP _ script _ rcfg attempts instants status errcode bodies same vals dl readable _ _ _ _ =>
+      let '(k, st, ec, ds) := http_expect rcfg script in
       (attempts =? k) && (status =? st) && (errcode =? ec)
-      && forallb (fun p => snd p <=? fst p) (combine (diffs instants) ds)     (* waits at least the Retry-After *)
+      (* waits at least the Retry-After, whatever other delay is configured *)
+      && forallb (fun p => snd p <=? fst p) (combine (diffs instants) (map retry_after_floor (pad script)))
       && bodies && same && vals && dl && readable
   | CaseOverlap _ _ attempts live live_ok _ _ => (2 <=? attempts) && (1 <=? live) && live_ok
   | _ => agrees c
@@ -96,7 +99,7 @@ Definition checker18 (c : case) : bool :=
 (* C19 on the implementation's observations: nothing left behind; responses obtained but not returned are closed *)
 Definition checker19 (c : case) : bool :=
   match c with
-  | CaseHTTP _ _ _ _ _ status _ _ _ _ _ _ _ opened closed leak =>
+  | CaseHTTP _ _ _ _ _ _ status _ _ _ _ _ _ _ opened closed leak =>
       negb leak && (closed =? opened)      (* the harness closes the returned response's body itself *)
   | CaseGRPC _ _ _ _ _ _ _ leak => negb leak
   | CaseBody _ _ _ _ _ _ _ => true
@@ -108,7 +111,7 @@ Definition checker19 (c : case) : bool :=
 (* what an execution leaves behind is C19's subject (Corr/C19.v judges the same cases with the leak flag) *)
 Definition no_leak (c : case) : case :=
   match c with
-  | CaseHTTP id sc cl at_ ins st ec b s v d r both op cl' _ => CaseHTTP id sc cl at_ ins st ec b s v d r both op cl' false
+  | CaseHTTP id sc cl rc at_ ins st ec b s v d r both op cl' _ => CaseHTTP id sc cl rc at_ ins st ec b s v d r both op cl' false
   | CaseGRPC id codes calls ret a m r _ => CaseGRPC id codes calls ret a m r false
   | CaseOverlap id k at_ live lo ao _ => CaseOverlap id k at_ live lo ao false
   | c => c
